@@ -46,6 +46,19 @@ theorem per_sender_order_current (limit : Nat) (acts : List Act) (hclean : (run 
   have _ := runqueue_shape
   per_sender_order cfg limit acts hclean tag htag sender receiver
 
+/-- today's janet_thread_chan_cb puts a stale hand-off that finds no other reader back into the queue, at the FRONT
+    (`janet_q_push_head`); with `janet_q_push` this does not build (seed C08-8) -/
+theorem requeue_at_head : cfg.requeue = true ∧ cfg.requeueHead = true := by decide
+
+/-- per-sender order across a requeued stale hand-off, for the configuration of the current source -/
+theorem per_sender_order_requeue_current (s : St) (m : Msg) (x : Item) (h1 : List (Nat × Item)) (hk : m.kind = .read x)
+    (hst : s.sched m.fiber ≠ m.sched) (hp : ReturnPoint s m.fiber x h1) (acts : List Act)
+    (hz : (run cfg acts { cb cfg s m with handed := h1 }).staleReads = (cb cfg s m).staleReads) :
+    let s1 : St := { cb cfg s m with handed := h1 }
+    s1.items = x :: s.items ∧
+      (run cfg acts s1).handed.map Prod.snd ++ (run cfg acts s1).items = (run cfg acts s1).sent :=
+  per_sender_order_requeue cfg (by decide) (by decide) requeue_at_head.1 requeue_at_head.2 s m x h1 hk hst hp acts hz
+
 theorem exactly_once_resumed_current (limit : Nat) (acts : List Act) (x : Item) :
     let s := run cfg acts (init limit)
     (gaveSeq s.log).countP (· == x) =
